@@ -85,7 +85,10 @@ func (en *Env) eval(e ast.Expr) *SV {
 		if b, ok := t.(*types.Basic); ok && b.Info()&types.IsUntyped != 0 {
 			t = types.Default(t)
 		}
-		return TV(w.ConstTerm(tv.Value, t))
+		if _, isBasic := t.Underlying().(*types.Basic); isBasic {
+			return TV(w.ConstTerm(tv.Value, t))
+		}
+		unsupportedf("constant %s of non-basic type %s in spec", exprString(e), t)
 	}
 	switch n := e.(type) {
 	case *ast.ParenExpr:
@@ -132,8 +135,20 @@ func (en *Env) eval(e ast.Expr) *SV {
 		case token.LOR:
 			return TV(Or(en.evalT(n.X), en.evalT(n.Y)))
 		}
-		a, b := en.evalT(n.X), en.evalT(n.Y)
 		ta, tb := en.typeOf(n.X), en.typeOf(n.Y)
+		var a, b *Term
+		switch {
+		case isNilIdent(n.Y):
+			a = en.evalT(n.X)
+			b = w.Zero(ta)
+			tb = ta
+		case isNilIdent(n.X):
+			b = en.evalT(n.Y)
+			a = w.Zero(tb)
+			ta = tb
+		default:
+			a, b = en.evalT(n.X), en.evalT(n.Y)
+		}
 		if bt, ok := ta.(*types.Basic); ok && bt.Info()&types.IsUntyped != 0 {
 			ta = tb
 		}
@@ -179,6 +194,11 @@ func (en *Env) eval(e ast.Expr) *SV {
 	}
 	unsupportedf("spec expression %s (%T)", exprString(e), e)
 	return nil
+}
+
+func isNilIdent(e ast.Expr) bool {
+	id, ok := e.(*ast.Ident)
+	return ok && id.Name == "nil"
 }
 
 func (en *Env) coerce(t *Term, s Sort) *Term {
@@ -311,7 +331,10 @@ func (en *Env) evalSelector(n *ast.SelectorExpr) *SV {
 		cur = ft
 	}
 	if ptr != nil {
-		return TV(en.load(ptr))
+		v = en.load(ptr)
+	}
+	if en.st != nil && needsValidity(cur, 0) {
+		en.validIn(v, cur)
 	}
 	return TV(v)
 }
@@ -714,7 +737,8 @@ func (en *Env) evalOverlayCall(fobj *types.Func, decl *ast.FuncDecl, n *ast.Call
 	case "mapdom":
 		mt := en.typeOf(n.Args[0])
 		_, _, _, md := x.mapComps(en.heap, mt.Underlying().(*types.Map), mt)
-		return TV(Select(Select(md, en.evalT(n.Args[0])), en.evalT(n.Args[1])))
+		mref := en.evalT(n.Args[0])
+		return TV(And(Not(Eq(mref, IntLit(0, SInt))), Select(Select(md, mref), en.evalT(n.Args[1]))))
 	case "mapof":
 		return en.eval(n.Args[0])
 	case "fnid":
